@@ -137,10 +137,23 @@ theorem partial_snoc {E : Env} {l c : Cert} {cur : List Cert} {i : Cert} (hP : P
     intro e; subst e
     exact hid (by simpa using hx)
 
+/-- `findPotentialParents` over the regenerated conditions, spelled out: when the child has an authority key
+identifier, the pool members with that subject key identifier (in pool order) — and **only if there is none**
+the members with the issuer's name; without an identifier, the members with the issuer's name. -/
+theorem findPotentialParents_eq (pool : List Cert) (c : Cert) :
+    findPotentialParents pool c =
+      (match c.aki with
+       | some k => if (pool.filter (fun p => p.ski == some k)).isEmpty then pool.filter (fun p => p.subject == c.issuer)
+                   else pool.filter (fun p => p.ski == some k)
+       | none => pool.filter (fun p => p.subject == c.issuer)) := by
+  unfold findPotentialParents Gen.fppUseKeyId Gen.fppFallBackToNames
+  cases h : c.aki <;> simp
+
 theorem mem_findPotentialParents {pool : List Cert} {c x : Cert} (h : x ∈ findPotentialParents pool c) : x ∈ pool := by
   unfold findPotentialParents at h
-  cases hk : c.aki <;> simp only [hk] at h <;> split at h <;>
-    first | exact (List.mem_filter.1 h).1 | (simp at h)
+  dsimp only at h
+  repeat' split at h
+  all_goals first | exact (List.mem_filter.1 h).1 | (simp at h)
 
 theorem extend_good {E : Env} {l c : Cert} {B : Nat} {cur : List Cert} (rec : Cert → List Cert → St → Res)
     (hP : Partial E l c cur) (hB : cur.length + 1 ≤ B)
@@ -370,7 +383,7 @@ theorem findSome?_none {α β} (f : α → Option β) : ∀ (l : List α), l.fin
     simp only [List.findSome?_cons]
     cases h : f a <;> simp [h, findSome?_none f l]
 
-theorem leafCheck_sound {o : Opts} {c : Cert} (h : ∀ name ∈ Gen.validateChainOrder, leafCheck o c name = none) : LeafOK o c := by
+theorem leafCheck_sound {o : Opts} {c : Cert} (h : ∀ name ∈ Gen.validateChainOrder, leafCheck o c name = some none) : LeafOK o c := by
   have h1 := h "notAfterStart" (by decide)
   have h2 := h "notAfterLimit" (by decide)
   have h3 := h "acceptOnlyCA" (by decide)
@@ -378,7 +391,7 @@ theorem leafCheck_sound {o : Opts} {c : Cert} (h : ∀ name ∈ Gen.validateChai
   have h5 := h "rejectUnexpired" (by decide)
   have h6 := h "rejectExtIds" (by decide)
   have h7 := h "extKeyUsages" (by decide)
-  simp only [leafCheck] at h1 h2 h3 h4 h5 h6 h7
+  simp only [leafCheck, Option.some.injEq] at h1 h2 h3 h4 h5 h6 h7
   refine ⟨?_, ?_, ?_, ?_, ?_, ?_, ?_⟩
   · intro s hs
     simp [Gen.naStartFails, hs] at h1; omega
@@ -399,40 +412,77 @@ theorem leafCheck_sound {o : Opts} {c : Cert} (h : ∀ name ∈ Gen.validateChai
     obtain ⟨e, he, hm⟩ := h7
     exact ⟨e, he, hm⟩
 
-theorem leafCheck_complete {o : Opts} {c : Cert} (h : LeafOK o c) (name : String) : leafCheck o c name = none := by
-  unfold leafCheck
-  split
-  · cases hs : o.notAfterStart with
+/-- The ten check names the model knows. -/
+def knownChecks : List String :=
+  ["parse", "verify", "chainsEquivalent", "notAfterStart", "notAfterLimit", "acceptOnlyCA", "rejectExpired", "rejectUnexpired",
+   "rejectExtIds", "extKeyUsages"]
+
+/-- Every check the regenerated `ValidateChain` order names is one the model has. -/
+theorem order_known : ∀ n ∈ Gen.validateChainOrder, n ∈ knownChecks := by decide
+
+theorem leafCheck_complete {o : Opts} {c : Cert} (h : LeafOK o c) (name : String) (hk : name ∈ knownChecks) : leafCheck o c name = some none := by
+  simp only [knownChecks, List.mem_cons, List.not_mem_nil, or_false] at hk
+  rcases hk with rfl | rfl | rfl | rfl | rfl | rfl | rfl | rfl | rfl | rfl
+  · rfl
+  · rfl
+  · rfl
+  · simp only [leafCheck, Option.some.injEq]
+    cases hs : o.notAfterStart with
     | none => simp [Gen.naStartFails]
     | some s => have := h.start s hs; simp [Gen.naStartFails]; omega
-  · cases hs : o.notAfterLimit with
+  · simp only [leafCheck, Option.some.injEq]
+    cases hs : o.notAfterLimit with
     | none => simp [Gen.naLimitFails]
     | some s => have := h.limit s hs; simp [Gen.naLimitFails]; omega
-  · cases hca : o.acceptOnlyCA
+  · simp only [leafCheck, Option.some.injEq]
+    cases hca : o.acceptOnlyCA
     · simp [Gen.acceptOnlyCAFails]
     · simp [Gen.acceptOnlyCAFails, h.onlyCA hca]
-  · cases hr : o.rejectExpired
+  · simp only [leafCheck, Option.some.injEq]
+    cases hr : o.rejectExpired
     · simp [Gen.rejectExpiredFails]
     · have := h.notExpired hr; simp [Gen.rejectExpiredFails, Gen.expired]; omega
-  · cases hr : o.rejectUnexpired
+  · simp only [leafCheck, Option.some.injEq]
+    cases hr : o.rejectUnexpired
     · simp [Gen.rejectUnexpiredFails]
     · have := h.expired hr; simp [Gen.rejectUnexpiredFails, Gen.expired]; omega
-  · simp only [ite_eq_right_iff, reduceCtorEq, imp_false, Bool.and_eq_true, Bool.not_eq_true', List.isEmpty_eq_false_iff,
-      List.any_eq_true, not_and, not_exists]
+  · simp only [leafCheck, Option.some.injEq, ite_eq_right_iff, reduceCtorEq, imp_false, Bool.and_eq_true, Bool.not_eq_true',
+      List.isEmpty_eq_false_iff, List.any_eq_true, not_and, not_exists]
     intro _ x hx
     simpa using h.extIds x hx
-  · by_cases hne : o.extKeyUsages = []
+  · simp only [leafCheck, Option.some.injEq]
+    by_cases hne : o.extKeyUsages = []
     · simp [hne]
     · obtain ⟨e, he, hm⟩ := h.eku hne
       simp only [ite_eq_right_iff, reduceCtorEq, imp_false, Bool.and_eq_true, not_and]
       intro _
       simp
       exact ⟨e, he, hm⟩
-  · rfl
 
 theorem leafFilters_iff (o : Opts) (c : Cert) : leafFilters o c = none ↔ LeafOK o c := by
   unfold leafFilters
   rw [findSome?_none]
-  exact ⟨leafCheck_sound, fun h name _ => leafCheck_complete h name⟩
+  constructor
+  · intro h
+    apply leafCheck_sound
+    intro name hn
+    have hk := leafCheck_complete (o := o) (c := c)
+    have := h name hn
+    cases hc : leafCheck o c name with
+    | none => simp [hc] at this
+    | some r => simp [hc] at this; rw [this]
+  · intro h name hn
+    rw [leafCheck_complete h name (order_known name hn)]
+
+/-- What the (regenerated-shape) poison loop computes. -/
+theorem poisonLoop_spec : ∀ (l : List PoisonExt) (found : Bool),
+    poisonLoop found l =
+      if l.any (fun x => !(x.critical && x.valueIsNull)) then .error () else .ok (found || !l.isEmpty)
+  | [], found => by simp [poisonLoop, Gen.poisonLoopFinalReturn]
+  | p :: rest, found => by
+    obtain ⟨cr, nl⟩ := p
+    have ih := poisonLoop_spec rest true
+    cases cr <;> cases nl <;>
+      simp [poisonLoop, Gen.poisonInvalid, Gen.poisonLoopStopsAtFirst, Gen.poisonLoopMarks, ih]
 
 end C02
